@@ -1097,3 +1097,36 @@ fn c11_rd_twin_must_fail() {
     core::mem::forget(rd);
 }
 
+
+//@ id=C11 tier=off cap=3600 mem=40
+//@ fn: gr::RestartingDeferral::process (Deferring + PeerEstablished with GR), complete_for
+//@ bound: REDUCED universe: peers {a,b}, families {v4,v6}; pending = any map a,b -> non-empty subset; peer a re-establishes with ANY non-empty family subset; unwind 5
+//@ desc: a family dropped by the re-establishing peer is released only if no other pending peer still lists it (same reference set-machine as the full-universe steps, which do not finish)
+#[kani::proof]
+#[kani::unwind(5)]
+fn c11_rd_small_deferring_established() {
+    let ma: u8 = kani::any();
+    let mb: u8 = kani::any();
+    let g: u8 = kani::any();
+    kani::assume(ma >= 1 && ma < 4 && mb < 4 && g >= 1 && g < 4);
+    let mut rd = RestartingDeferral {
+        state: RestartingInner::Deferring {
+            pending: build_pending([ma, mb, 0]),
+        },
+    };
+    let out = rd.process(RestartingInput::PeerEstablished(peer(0), fams_vec(g)));
+    let s = rd_sum(&out, false);
+    let (post, bad) = pending_masks(&rd.state);
+    assert!(!bad);
+    assert!(post[0] == g && post[1] == mb);
+    let listed_pre = ma | mb;
+    let listed_post = g | mb;
+    let released = s.complete;
+    assert!(released & listed_post == 0);
+    assert!((listed_pre & !listed_post) & !released == 0);
+    assert!(s.end == 0 && !rd.is_completed());
+    kani::cover!(released != 0);
+    kani::cover!(ma & !g & mb != 0);
+    core::mem::forget(out);
+    core::mem::forget(rd);
+}
